@@ -1268,7 +1268,7 @@ func ruleINV8(c *Ctx) {
 		"RuleEntry.Retracted=true":       {"(*ast.KnowledgeBase).RetractRule": true},
 		"RuleEntry.Retracted=false":      {"(*ast.KnowledgeBase).Reset": true, "(*ast.RuleEntry).Clone": true},
 		"RuleEntry.Deleted=true":         {"(*ast.KnowledgeBase).RemoveRuleEntry": true, "(*ast.KnowledgeLibrary).RemoveRuleEntry": true},
-		"RuleEntry.Deleted=copy":         {"(*ast.RuleEntry).Clone": true},
+		"RuleEntry.Deleted=copy":         {"(*ast.RuleEntry).Clone": true, "(*ast.Catalog).BuildKnowledgeBase": true},
 		"RuleEntry.Retracted=copy":       {},
 		"Expression.Evaluated=copy":      {},
 		"ExpressionAtom.Evaluated=copy":  {},
@@ -1801,7 +1801,9 @@ func ruleINV13(c *Ctx) {
 
 // unreachablePruneOK recognises the one legitimate removal from the working memory's registry: a garbage collection of
 // nodes that no rule entry links to. Returns "" when the delete has exactly that shape, otherwise the reason.
-//   for k, n := range recv.<registry> { if _, ok := reachable[n.AstID]; !ok { delete(recv.<registry>, k) } } ; recv.IndexVariables()
+//
+//	for k, n := range recv.<registry> { if _, ok := reachable[n.AstID]; !ok { delete(recv.<registry>, k) } } ; recv.IndexVariables()
+//
 // and every call site passes kb.MakeCatalog().Data for the receiver kb.WorkingMemory of the same kb.
 func (c *Ctx) unreachablePruneOK(fn *ssa.Function, del ssa.Instruction, f *types.Var) string {
 	p := c.P
